@@ -260,7 +260,7 @@ fn same_scorer(sc: &Scorer, bases: &[u32; 2], checks: &[u32; 3], costs: &[i32; 3
     }
 }
 
-//@ c05_roundtrip_raw {"tier":"thorough","desc":"write -> read of a raw-connector dictionary: the 8-lane feature rows (hand-written U31x8/U31 codecs) and the scorer arrays (hand-written Scorer codec) come back identical, byte count = bytes emitted","bounds":"2 right x 2 left ids, 1 block per id, scorer 2 bases / 3 cells; 2 words, 3-entry table, 2 unknown entries","symbolic":"all feature ids (valid 31-bit), scorer arrays, word/unknown parameters, character infos","functions":["Dictionary::write","Dictionary::read","U31x8::encode","U31x8::decode","U31::decode","Scorer::encode","Scorer::decode","RawConnector codec"],"fs":5000,"unwind":24,"unwindset":["memcmp:24","ElemWriter:200"],"timeout":3600,"mem_gb":28,"stubs":["alloc::fmt::format","unty::type_equal"]}
+//@ c05_roundtrip_raw {"tier":"thorough","core":false,"desc":"write -> read of a raw-connector dictionary: the 8-lane feature rows (hand-written U31x8/U31 codecs) and the scorer arrays (hand-written Scorer codec) come back identical, byte count = bytes emitted","bounds":"2 right x 2 left ids, 1 block per id, scorer 2 bases / 3 cells; 2 words, 3-entry table, 2 unknown entries","symbolic":"all feature ids (valid 31-bit), scorer arrays, word/unknown parameters, character infos","functions":["Dictionary::write","Dictionary::read","U31x8::encode","U31x8::decode","U31::decode","Scorer::encode","Scorer::decode","RawConnector codec"],"fs":5000,"unwind":24,"unwindset":["memcmp:24","ElemWriter:200"],"timeout":3600,"mem_gb":28,"stubs":["alloc::fmt::format","unty::type_equal"]}
 #[cfg(kani)]
 #[kani::proof]
 #[kani::stub(alloc::fmt::format, crate::c06::stub_format)]
